@@ -150,7 +150,27 @@ def _driver(ck: Checker) -> None:
         e = t.ast.value if isinstance(t.ast, ast.NamedExpr) else t.ast
         if any(e is r for r in reads):
             return True  # `while stream.read(n): ...`  /  `while (data := stream.read(n)): ...`
-        return flows_from_calls(g, t, t.ast, reads) and isinstance(t.ast, ast.Name)
+        if not (flows_from_calls(g, t, t.ast, reads) and isinstance(t.ast, ast.Name)):
+            return False
+        # the flag must stand for "the read returned something": the data itself, its length / truthiness, or a comparison
+        # of those with a constant - not a comparison with the requested size (a short read is not EOF)
+        from ..an import value_alts as _va
+
+        def emptiness(e, depth=4) -> bool:
+            if any(e is r for r in reads):
+                return True
+            if isinstance(e, ast.Name):
+                alts = [a for a in _va(g, t, e, depth=3) if not isinstance(a, ast.Name)]
+                return bool(alts) and all(emptiness(a, depth - 1) for a in alts) if depth > 0 else False
+            if isinstance(e, ast.Call) and isinstance(e.func, ast.Name) and e.func.id in ("len", "bool") and len(e.args) == 1:
+                return emptiness(e.args[0], depth - 1)
+            if isinstance(e, ast.UnaryOp) and isinstance(e.op, ast.Not):
+                return emptiness(e.operand, depth - 1)
+            if isinstance(e, ast.Compare) and len(e.ops) == 1 and isinstance(e.comparators[0], ast.Constant):
+                return emptiness(e.left, depth - 1)
+            return False
+
+        return emptiness(t.ast)
 
     after = {d for _n, _l, d in exits}
     w = cut(g, list(after), empty_read)
